@@ -296,6 +296,15 @@ def r53_point_branches(ctx, res):
         if sm is None:
             raise AnalysisError("%s.__contains__ was not evaluated on a Point" % cname)
         carriers = sorted(f for (k, f), v in eng.fields.items() if k == cname and set(map(str, v)) <= {"Line", "Plane"})
+        if not carriers:
+            # the carrier may be a read-only property computed from the defining points (`@property def line(self)`)
+            for mname, pm in sorted(c.methods.items()):
+                if "property" in pm.decorators:
+                    rt = set()
+                    for _b, psm in eng.summaries_of(pm):
+                        rt |= set(map(str, psm.ret))
+                    if rt and rt <= {"Line", "Plane"}:
+                        carriers.append(mname)
         if len(carriers) != 1:
             raise AnalysisError("%s: expected exactly one carrier field, found %s" % (cname, carriers))
         me, other = m.params[:2]
